@@ -222,11 +222,38 @@ func nafEval(r *vx.R, s []byte, n, w int, shape string) {
 	if why := nafCheck(out, s, n, w); why != "" {
 		r.Violation(fmt.Sprintf("naf:wrong:n%d:w%d", n, w), fmt.Sprintf("DecomposeNAF(s=%x,n=%d,w=%d): %s", s, n, w, why), nafCase{vx.Hex(s), n, w})
 	}
+	// a digit buffer longer than n (the caller's array may be larger than this scalar needs): the first n entries are the
+	// recoding, the rest is not touched
+	nafLongOut++
+	if nafLongOut%5 == 0 || n != 257 {
+		for _, extra := range []int{1, 7, n} {
+			long := make([]int, n+extra)
+			for i := n; i < len(long); i++ {
+				long[i] = 99
+			}
+			kind, msg := vx.Try(func() { utils.DecomposeNAF(long, s, n, w) })
+			if kind != "" {
+				r.Violation(fmt.Sprintf("naf:long-out:panic:w%d", w), fmt.Sprintf("DecomposeNAF panicked with a digit buffer of %d entries for n=%d: %s", len(long), n, msg), nafCase{vx.Hex(s), n, w})
+				continue
+			}
+			if why := nafCheck(long[:n], s, n, w); why != "" {
+				r.Violation(fmt.Sprintf("naf:long-out:wrong:w%d", w), fmt.Sprintf("DecomposeNAF(s=%x,n=%d,w=%d) into a buffer of %d entries: %s", s, n, w, len(long), why), nafCase{vx.Hex(s), n, w})
+			}
+			for i := n; i < len(long); i++ {
+				if long[i] != 99 {
+					r.Violation(fmt.Sprintf("naf:long-out:writes-beyond-n:w%d", w), fmt.Sprintf("DecomposeNAF(n=%d) wrote entry %d of a %d-entry buffer", n, i, len(long)), nafCase{vx.Hex(s), n, w})
+					break
+				}
+			}
+		}
+	}
 	r.Shape(shape)
 }
 
+var nafLongOut int
+
 func TestVX_C20_NAF(t *testing.T) {
-	r := vx.Begin("C20", "naf", "DecomposeNAF: n=17 complete (all 65536 inputs x w=1..7); n=257: every P-bit pattern (P=8 quick, 16 thorough) at every bit offset on all-zero and all-one backgrounds x w=1..7, all 2^a-2^b, alternating masks, n-1, 2^256-1, seeded; histories: every ordered pair of calls over n in {9,17,65,129,257,385,513} x w in {1,4,7} (inputs all-ones / seeded / top nibble), the first call also with an out slice that is too short (panics half way), the second call checked. Shape=(n,w,offset,background) resp. (n,w,class); oracle: the four defining w-NAF conditions checked digit by digit with limb arithmetic (cross-checked against math/big on a sub-sample)")
+	r := vx.Begin("C20", "naf", "DecomposeNAF: n=17 complete (all 65536 inputs x w=1..7); n=257: every P-bit pattern (P=8 quick, 16 thorough) at every bit offset on all-zero and all-one backgrounds x w=1..7, all 2^a-2^b, alternating masks, n-1, 2^256-1, seeded; digit buffers longer than n (n+1, n+7, 2n: first n entries checked, the rest untouched); histories: every ordered pair of calls over n in {9,17,65,129,257,385,513} x w in {1,4,7} (inputs all-ones / seeded / top nibble), the first call also with an out slice that is too short (panics half way), the second call checked. Shape=(n,w,offset,background) resp. (n,w,class); oracle: the four defining w-NAF conditions checked digit by digit with limb arithmetic (cross-checked against math/big on a sub-sample)")
 	defer r.End()
 	if raw, ok := vx.Replay("naf"); ok {
 		var c nafCase
